@@ -71,6 +71,15 @@ class Check:
 
     def mc_expect_violation(self, module, cfg, label, what=None, workers=16, timeout=600):
         """Non-vacuity: with a deviation switched on TLC must find a counterexample."""
+        if what:
+            # 16 workers report whichever property fails first: check ONLY the named one, so that the verdict of this
+            # run does not depend on scheduling
+            cfg = dict(cfg)
+            invs, props = list(cfg.get('invariants') or []), list(cfg.get('properties') or [])
+            if what in invs:
+                cfg['invariants'], cfg['properties'] = [what], []
+            elif what in props:
+                cfg['invariants'], cfg['properties'] = [], [what]
         r = tlc.run(module, cfg=cfg, workers=workers, timeout=timeout)
         self.mc_runs.append({'module': module, 'label': label, 'distinct': r.distinct, 'generated': r.generated,
                              'ok': r.ok, 'violation': r.violation, 'expected_violation': True,
